@@ -444,3 +444,19 @@ def ode_setup(draw, m, n_times=(1, 12), t_max=6.0, uniform=None):
             rel.append(sig(acc, 6))
         rel = sorted(set(rel))
     return {"x0": x0, "theta": theta, "t0": t0, "grid_rel": rel}
+
+
+@st.composite
+def integer_grid(draw, su, min_n=1, max_n=6):
+    """Re-time a setup so that the requested times are whole numbers (day numbers) while the initial time may be
+    fractional: returns a copy of `su` with t0 in {old, 0.5, 2.5, 2.75} and grid_rel such that t0 + rel is integral."""
+    import math
+    t0 = draw(st.sampled_from([su["t0"], 0.5, 2.5, 2.75, 0.25]))
+    n = max(min_n, min(max_n, len(su["grid_rel"])))
+    steps = [draw(st.sampled_from([1, 1, 1, 2])) for _ in range(n)]
+    base, acc, rel = math.floor(t0), 0, []
+    for k in steps:
+        acc += k
+        rel.append(float((base + acc) - t0))
+    return dict(su, t0=t0, grid_rel=rel)
+
